@@ -143,6 +143,10 @@ func genC15(t *rapid.T) C15Pair {
 			"db__i__20060102-150405-00000000__G0.pb.gz", "db__i__20061302-150405-000000000__G0.pb.gz",
 			"db__i__20060102-150405-000000000.pb.gz", "db/i__x__20060102-150405-000000000__G0.pb.gz",
 			"db__i__20060102-150405-000000000__G0.pb.gz.tmp", "db__i__20060102-150405-000000000__G0.txt",
+			// the separator in front of the nanoseconds is not the dash the format prescribes
+			"db__i__20060102-150405_000000000__G0.pb.gz", "db__i__20060102-1504050000000000__G0.pb.gz",
+			"db__i__20060102-150405x000000000__G0.pb.gz", "db__i__20060102-150405+000000000__G0.pb.gz",
+			"db__i__20060102_150405-000000000__G0.pb.gz", "db__i__20060102-150405:000000000__G0.pb.gz",
 			// a backup / another kind of file / a dotted extra item: the extension is not exactly "pb.gz"
 			"db__i__20060102-150405-000000000__G0.bak.pb.gz", "db__i__20060102-150405-000000000__G0.delta.pb.gz",
 			"db__i__20060102-150405-000000000__G0__V1.2.pb.gz", "db__i__20060102-150405-000000000__G0..pb.gz",
@@ -154,7 +158,16 @@ func genC15(t *rapid.T) C15Pair {
 			"db__i__20230101-240000-000000000__G0.pb.gz", "db__i__20230101-235960-000000000__G0.pb.gz",
 			"db__i__20230100-000000-000000000__G0.pb.gz", "db__i__20230001-000000-000000000__G0.pb.gz"}),
 	).Draw(t, "junk")
-	if rapid.IntRange(0, 9).Draw(t, "junk_date") == 0 {
+	if rapid.IntRange(0, 19).Draw(t, "junk_sep") == 0 {
+		// a well-formed name with ONE byte of its timestamp field replaced (separators and digits alike)
+		good := []byte(snapshot.Name("db", "i", "G0", time.Unix(1136214245, int64(rapid.IntRange(0, 999_999_999).Draw(t, "jsn"))).UTC()))
+		pos := len("db__i__") + rapid.IntRange(0, 24).Draw(t, "jpos")
+		repl := rapid.SampledFrom([]byte("_-.:+x09 /")).Draw(t, "jrepl")
+		if good[pos] != repl && !(good[pos] >= '0' && good[pos] <= '9' && repl >= '0' && repl <= '9') {
+			good[pos] = repl
+			c.Junk = string(good)
+		}
+	} else if rapid.IntRange(0, 9).Draw(t, "junk_date") == 0 {
 		// a snapshot-shaped name with a generated calendar field out of range or a day its month lacks
 		c.Junk = fmt.Sprintf("db__i__%04d%02d%02d-%02d%02d%02d-%09d__G0.pb.gz",
 			rapid.SampledFrom([]int{1970, 2023, 2024, 2100, 2262}).Draw(t, "jy"), rapid.IntRange(0, 13).Draw(t, "jm"), rapid.IntRange(0, 32).Draw(t, "jd"),
